@@ -190,6 +190,17 @@ def mc_task(logic, n, ftxts, opts=None):
             if extra_pairs:
                 excg = exc_guard(h.fr)
                 mut = mutated(h.K, snap)
+            resv_edit = None
+            if opts.get('edit_then_call') and nfair is None:
+                # the CALLER edits its structure in place (adds atom p to the last state) and asks again: the answer must be the
+                # answer for the edited structure (a memo that outlives the call and is keyed by the object would be stale)
+                last = st[n - 1]
+                for (gl_, s_) in alts_of(h.K.attrs['_labels'].vals[last]):
+                    if isinstance(s_, MSet):
+                        s_.put(lab_pool['p'] if lab_pool else 'p', True)
+                res_e = h.ctx.call(mcmod.modelcheck, [h.K, f], kw)
+                resv_edit = vec(res_e, st)
+                excg = exc_guard(h.fr)
             unw = unwind_guard(h.vm)
             t1 = time.time()
             rec.update(encode_s=round(t1 - t0, 2), exc=kinds, loops={('%s:%d' % k): v for k, v in h.vm.stats['loops'].items()},
@@ -255,6 +266,16 @@ def mc_task(logic, n, ftxts, opts=None):
                 rec['recall_same'] = d.differ(resv, resv2)          # implementation vs implementation
                 if rec['recall_same'] == 'sat':
                     rec['recall_same_model'] = d.differ_model(resv, resv2)
+            if resv_edit is not None:
+                lab3 = {a: list(v) for a, v in lab2.items()}
+                pk = lab_pool['p'] if lab_pool else 'p'
+                lab3[pk] = list(lab3[pk])
+                lab3[pk][n - 1] = True
+                want_e = oracles.ctl(f, T2, lab3, n) if (logic == 'CTL' and not opts.get('ctls_oracle')) else \
+                    oracles.ctls(f, T2, lab3, n, depths=oracles.Depths('fixed', inner=(depths.max_inner if depths else n * 8) + 2, outer=(depths.max_outer if depths else n * 8) + 2))
+                rec['after_edit'] = d.differ(resv_edit, want_e)
+                if rec['after_edit'] == 'sat':
+                    rec['after_edit_model'] = d.differ_model(resv_edit, want_e)
             for nm_, v2 in extra_pairs.items():
                 rec[nm_] = d.differ(resv, v2)              # implementation vs implementation
                 if rec[nm_] == 'sat':
